@@ -48,7 +48,13 @@ fn block_level(ctx: &Ctx, t: &mut Tape<'_>, r: &mut Report) -> CheckResult {
     let iv = gen_iv(t, bs);
     let unit = f.unit();
     let par = suite.info.par;
-    let n = if unit == 1 { gen_msg_len(t, bs, 5) } else { gen_nblocks(t, par, 40) };
+    let n = if unit == 1 {
+        // CFB-8 works on bytes: mostly a few register lengths, sometimes well past 256 bytes
+        let l = gen_msg_len(t, bs, 5);
+        if t.chance(24) { 250 + (l * 7) % 300 } else { l }
+    } else {
+        gen_nblocks(t, par, 40)
+    };
     let data = tape::gen_bytes(t, n * unit);
     let pre = gen_prefill_kind(t);
     let pieces = gen_pieces(t, n, 5, par);
